@@ -19,13 +19,18 @@ ID = "C10"
 RULE = ("boundary sweep of segment durations around fragment_duration_ms (in ms and in single 90 kHz ticks), forced splits at "
         "10x the target and at 1 s backwards, target-duration rounding points, every fragment_num{1,3,6} x delete_threshold{0,1,2} x "
         "cleanup_mode{0,1,2} ring run past the ring capacity, audio-only, no key frames, PAT/PMT change, re-publish with and without "
-        "the deferred directory cleanup, then seeded random frame sequences; a case is non-trivial when the model output contains at "
-        "least one playlist write; distinct = distinct (class, config, number of operations, number of segments)")
+        "the deferred directory cleanup (chains of publications, publications that close nothing), then seeded random frame sequences; "
+        "the server level on the real ServerManager (c10.sm): after a stopped publication every word over {housekeeping tick, "
+        "re-publish, delayed cleanup fires, stop} up to length 3 (4 in the thorough tier), i.e. the cleanup firing before, between "
+        "and after 'tick erases the group' / 're-publish creates a fresh group'; a case is non-trivial when the model output contains "
+        "at least one playlist write; distinct = distinct (class, config, number of operations, number of segments) resp. the word")
 ASSUMPTIONS = ["file-system-layer calls succeed and are atomic (crash points are between two calls)",
                "the muxer is driven directly with (tsPackets, frame, boundary) as Rtmp2MpegtsRemuxer / logic.Group do; the observer "
                "(OnFragmentOpen -> FlushAudio re-entrancy) is nil",
-               "ServerManager.CleanupHlsIfNeeded's deferred task is replayed by the harness (RemoveAll unless a muxer is alive), "
-               "its timer is not",
+               "c10.run replays ServerManager.CleanupHlsIfNeeded's deferred task in the harness (RemoveAll unless a muxer is alive); "
+               "c10.sm and c10.cleanup run the real closure on its real timer (naza defertaskthread), the delay shortened by "
+               "configuration only; a script event placed before a timer must have completed before it fires (checked; the attempt "
+               "is repeated otherwise)",
                "the property clauses about TS packets are evaluated when the fed data are whole 188-byte packets and a 376-byte "
                "PAT/PMT was fed first (as mpegts does); other inputs are compared model == implementation only"]
 FULL_OUTPUT = True
@@ -206,6 +211,20 @@ def gen_cases(tier, rng):
                 sc.now += 5000
                 sc.N().P(); steady(sc, 0, n2, 1000, per_seg=2); sc.V(n2 * 1000, True); sc.D()
                 yield Case(sc.line(1000, 3, 1, mode), cls="republish" + ("-cleanup" if cleanup == "C" else "-alive-cleanup" if cleanup else ""))
+    # re-publish chains: the numbering carries on over three publications and past the ring capacity, after a
+    # publication that closed nothing / fed nothing, with a forced split at the first frame, in every cleanup mode
+    for mode in [0, 1, 2]:
+        for num, thr in [(1, 0), (3, 1), (6, 2)]:
+            sc = Sc().N().P(); steady(sc, 0, num + 1, 1000, per_seg=2); sc.V((num + 1) * 1000, True).D()
+            sc.now += 3000
+            sc.N().P().D()                                           # a publication that feeds nothing
+            sc.N().P().V(0, False).V(40, False).D()                  # ... and one that never opens a segment
+            sc.N().P(1); steady(sc, 5000, thr + 2, 1000, per_seg=2); sc.V(5000 + (thr + 2) * 1000, True).D()
+            sc.now += 3000
+            sc.N().P().V(0, True).V(20000, False).V(21000, True).D()  # forced split inside the third publication
+            yield Case(sc.line(1000, num, thr, mode), cls="republish-chain")
+        sc = Sc().N().P().V(0, True).D().N().P().V(0, True).D().N().P().V(0, True).V(1000, True).D()
+        yield Case(sc.line(1000, 2, 0, mode), cls="republish-chain")
     # the real ServerManager.CleanupHlsIfNeeded deferred task, with and without a live muxer
     for mode in [0, 1, 2]:
         for alive in [1, 0]:
